@@ -326,6 +326,60 @@ static void check_clone(source *c, const elem *seq, long L, long p, int open)
 		if (i - p > 300 && i < L - 3) break;   /* long sources: prefix of the rest */
 	}
 }
+
+/* string iterator: further reads of the current element in other target types (some are refused).  The
+ * result of each read follows from the element's numeral; the element stays current whatever the outcome. */
+static void str_extra_reads(source *s, const elem *cur, vf_rng *r)
+{
+	static const char types[] = "ybnqiufd";
+	const MPT_STRUCT(value) *v;
+	int n = 1 + (int) vf_below(r, 3);
+	for (int i = 0; i < n; i++) {
+		MPT_INTERFACE(convertable) *conv;
+		/* integral target types only on lists of plain integer numerals: read as integer, "1.5" or "1e3" ends behind the
+		 * integral prefix (the conversion delimits the element), which is not what is examined here */
+		int plain = !strpbrk(s->desc, ".eEnN"), type = plain ? types[vf_below(r, 8)] : types[6 + vf_below(r, 2)], ret, fits;
+		uint8_t buf[16];
+		double d = cur->d;
+		vf_at("iterator::value");
+		v = s->it->_vptr->value(s->it);
+		VF_CHECK(v && v->_type == MPT_ENUM(TypeConvertablePtr) && v->_addr, "model:value:type", "%s: %s: string iterator value is not a convertable", s->api, s->desc);
+		conv = *(MPT_INTERFACE(convertable) * const *) v->_addr;
+		memset(buf, 0x5a, sizeof(buf));
+		vf_at("convertable::convert");
+		ret = conv->_vptr->convert(conv, type, buf);
+		vf_count("string:extra-reads", 1);
+		if (vf_logging) vf_log("    extra read as '%c' -> %d", type, ret);
+		/* integral targets: an integral numeral inside the target range converts, one outside is refused */
+		fits = -1;
+		if (d == floor(d) && fabs(d) < 1e15) {
+			switch (type) {
+			case 'y': fits = d >= 0 && d <= 255; break;
+			case 'b': fits = d >= -128 && d <= 127; break;
+			case 'n': fits = d >= -32768 && d <= 32767; break;
+			case 'q': fits = d >= 0 && d <= 65535; break;
+			case 'i': fits = d >= -2147483648.0 && d <= 2147483647.0; break;
+			case 'u': fits = d >= 0 && d <= 4294967295.0; break;
+			}
+		}
+		if (type == 'd') {
+			VF_CHECK(ret > 0 && !memcmp(buf, &cur->d, 8), "model:value:replay", "%s: %s: repeated read of %s as 'd' gives %d", s->api, s->desc, elem_str(cur), ret);
+		}
+		else if (fits == 1 && plain) {
+			/* list of plain integer numerals */
+			long long got = 0;
+			VF_CHECK(ret > 0, "model:value:conversion-refused", "%s: %s: element %s refused as '%c' (%d)", s->api, s->desc, elem_str(cur), type, ret);
+			switch (type) { case 'y': got = buf[0]; break; case 'b': got = (int8_t) buf[0]; break; case 'n': { int16_t x; memcpy(&x, buf, 2); got = x; break; } case 'q': { uint16_t x; memcpy(&x, buf, 2); got = x; break; }
+			case 'i': { int32_t x; memcpy(&x, buf, 4); got = x; break; } default: { uint32_t x; memcpy(&x, buf, 4); got = x; } }
+			VF_CHECK((double) got == d, "model:value:conversion-value", "%s: %s: element %s read as '%c' gives %lld", s->api, s->desc, elem_str(cur), type, got);
+			vf_count("string:extra-reads-accepted", 1);
+		}
+		else if (fits == 0 && plain) {
+			VF_CHECK(ret < 0, "model:value:conversion-accepted-out-of-range", "%s: %s: element %s accepted as '%c' (%d)", s->api, s->desc, elem_str(cur), type, ret);
+			vf_count("string:extra-reads-refused", 1);
+		}
+	}
+}
 /* PRNG interleaving on a source whose reference sequence is known */
 static void interleave(source *s, const elem *seq, long L, int open, vf_rng *r, int steps)
 {
@@ -353,6 +407,8 @@ static void interleave(source *s, const elem *seq, long L, int open, vf_rng *r, 
 			else if (!open) VF_CHECK(e.st == StEnd, "model:value:past-end", "%s: %s: value() behind the last of %ld elements gives %s", s->api, s->desc, L, elem_str(&e));
 			vf_count("monitor:value-compared", 1);
 			if (p >= L && !open) vf_count("state:read-past-end", 1);
+			/* the same element once more in other target types; whatever the last outcome, it stays current */
+			if (s->kind == KStr && p < L && e.st == StVal && vf_chance(r, 1, 2)) str_extra_reads(s, &seq[p], r);
 		}
 		else if (op < 11) {
 			rr = src_advance(s);
@@ -407,6 +463,20 @@ static void interleave(source *s, const elem *seq, long L, int open, vf_rng *r, 
 	}
 }
 
+
+/* consuming from a source directly behind its walk: refused, nothing stored - whatever the stack holds */
+static const double consume_sentinel = -777.125;
+static int consume_exhausted(source *s, int pattern, double *got)
+{
+	int rr;
+	*got = consume_sentinel;
+	fill_stack(pattern);
+	vf_at("mpt_iterator_consume");
+	rr = mpt_iterator_consume(s->it, 'd', got);
+	vf_count("mpt_iterator_consume", 1);
+	vf_count("monitor:consume-on-exhausted", 1);
+	return rr;
+}
 /*
  * complete check of one description.  make() creates the source (NULL:
  * refused).  Returns 1 when a source was created.
@@ -417,7 +487,8 @@ static int run_source(const char *api, int kind, const char *desc, maker make, v
 	source s, s2;
 	MPT_INTERFACE(metatype) *mt;
 	long L, L2;
-	int open, open2;
+	int open, open2, end_ret = 0;
+	double end_got = 0;
 
 	memset(&s, 0, sizeof(s));
 	snprintf(s.desc, sizeof(s.desc), "%s", desc);
@@ -453,6 +524,11 @@ static int run_source(const char *api, int kind, const char *desc, maker make, v
 	vf_max("max:elements-walked", (uint64_t) L);
 	if (x) check_expect(&s, x, ref, L, open);
 	if (!open) {
+		end_ret = consume_exhausted(&s, 0x00, &end_got);
+		VF_CHECK(end_ret < 0, "model:consume:past-end", "%s: %s: consume('d') behind the walk of %ld elements returned %d (stored %.17g)", api, desc, L, end_ret, end_got);
+		VF_CHECK(end_got == consume_sentinel, "model:consume:past-end", "%s: %s: consume('d') behind the walk returned %d but stored %.17g", api, desc, end_ret, end_got);
+	}
+	if (!open) {
 		/* behind the end: reported, repeatedly */
 		elem e;
 		int rr;
@@ -471,6 +547,11 @@ static int run_source(const char *api, int kind, const char *desc, maker make, v
 	s2 = s;
 	src_bind(&s2, mt, kind, api);
 	L2 = ref_walk(&s2, ref2, &open2);
+	if (L2 == L && !open2 && !open) {
+		double got2;
+		int rr2 = consume_exhausted(&s2, 0xff, &got2);
+		VF_CHECK(rr2 == end_ret && !memcmp(&got2, &end_got, sizeof(got2)), "model:consume:depends-on-uninitialised-memory", "%s: %s: consume('d') behind the walk gives %d / %.17g with a zero filled and %d / %.17g with a 0xff filled stack", api, desc, end_ret, end_got, rr2, got2);
+	}
 	VF_CHECK(L2 == L && open2 == open, "model:create:nondeterministic", "%s: %s: %ld elements on first, %ld on second creation", api, desc, L, L2);
 	for (long i = 0; i < L; i++) VF_CHECK(elem_eq(&ref[i], &ref2[i]), "model:create:nondeterministic", "%s: %s: element %ld is %s on first and %s on second creation", api, desc, i, elem_str(&ref[i]), elem_str(&ref2[i]));
 	vf_count("monitor:second-creation-compared", 1);
@@ -952,9 +1033,14 @@ static void case_string(vf_rng *r)
 		expect_alloc(&x, n);
 		l += snprintf(d + l, sizeof(d) - l, "%s", lead[vf_below(r, 5)]);
 	}
+	int integers = vf_chance(r, 1, 2);
 	for (int i = 0; i < n; i++) {
 		double v = pick_num(r, 0);
-		numtxt(t, sizeof(t), v, r);
+		if (integers) {
+			static const long long iv[] = { 0, 1, 7, 12, 127, 128, 255, 256, 300, 32767, 32768, 65535, 65536, 70000, -1, -5, -128, -129, -40000, 2147483647LL, 2147483648LL, 4294967295LL, 4294967296LL };
+			snprintf(t, sizeof(t), "%lld", iv[vf_below(r, sizeof(iv) / sizeof(*iv))]);
+		}
+		else numtxt(t, sizeof(t), v, r);
 		x.v[i] = strtod(t, 0);
 		l += snprintf(d + l, sizeof(d) - l, "%s%s", i ? seps[vf_below(r, 8)] : "", t);
 	}
